@@ -222,6 +222,10 @@ func (s *Sim) doEnv(a *envAction) {
 	case "age-stage":
 		s.ageStage(a)
 	case "noop":
+	case "disable":
+		os.WriteFile(filepath.Join(w.outDir, ".disabled"), []byte("x"), 0644)
+	case "enable":
+		os.Remove(filepath.Join(w.outDir, ".disabled"))
 	default:
 		if s.envExt != nil && s.envExt(a) {
 			return
